@@ -286,11 +286,30 @@ func (e *Env) getVersionInline(gv *types.Func, leaves []*ir.Leaf, shape []*ir.Te
 			if _, ok := nameEq(g, part1, "!="); ok {
 				continue
 			}
+			// the label looked up in the label table by a reverse look-up loop written out in the function
+			if rh := revHasOf(g); rh != nil && rh.Args[1].Key() == part1.Key() {
+				continue
+			}
 			okRest = false
 		}
 		r := lf.Ret[0]
 		okVal := false
 		detail := ""
+		if r.Op == "rev" && len(r.Args) == 2 && r.Args[1].Key() == part1.Key() && label == "" {
+			// the key of the label table whose value is the second part (guarded by "some entry has it")
+			has := &ir.Term{Op: "revhas", Args: r.Args}
+			if ok, why := e.revLabelTable(r.Args[0], verT); ok && hasGuard(lf, has) {
+				for _, l := range spec.VersionLabels {
+					seenLabel[l] = true
+				}
+				okVal = true
+				detail = "reverse look-up in " + clip(r.Args[0].Pretty()) + " tabulated over the label domain"
+			} else {
+				detail = why
+			}
+			c.Check(okLen && okTag && okRest && okVal, "version-prefix", cons, e.P.Pos(lf.Pos), `accepts only "CVSS:<label>"; `+detail, fmt.Sprintf("prefix acceptance is not exactly: two ':'-parts, first part == \"CVSS\", value = the label table's key for the second part (len ok=%v, tag ok=%v, only label tests=%v, value ok=%v; %s)", okLen, okTag, okRest, okVal, detail))
+			continue
+		}
 		if r.Op == ir.OCall && label == "" {
 			// the second part handed to a look-up helper together with the label table (a generic reverse look-up
 			// get(table, part, unknown)): the application is tabulated over the label domain
@@ -338,6 +357,54 @@ func (e *Env) getVersionInline(gv *types.Func, leaves []*ir.Leaf, shape []*ir.Te
 		c.Check(seenLabel[l], "version-prefix", who+" label "+l, e.P.Pos(gv.Pos()), "has an accepting path", "no accepting path for the supported label "+l)
 	}
 	c.Check(nDefault == 1, "version-prefix", who+" default path", e.P.Pos(gv.Pos()), "exactly one path for every other label (unknown version)", fmt.Sprintf("%d paths return without a label having matched", nDefault))
+}
+
+// revHasOf: g is revhas(M, X) or its negation; returns the revhas term.
+func revHasOf(g *ir.Term) *ir.Term {
+	if g.Op == ir.OUn && g.Str == "!" && len(g.Args) == 1 {
+		g = g.Args[0]
+	}
+	if g.Op == "revhas" && len(g.Args) == 2 {
+		return g
+	}
+	return nil
+}
+
+// revLabelTable: the term denotes a literal map from version constants to labels in which every supported label
+// occurs exactly once, under the constant that prints as it, and every other value belongs to the unknown
+// version: then "the key whose value is s" is the constant of label s, and there is none (or only the unknown
+// one) for every other string.
+func (e *Env) revLabelTable(m *ir.Term, verT types.Type) (bool, string) {
+	v, ok := e.termAsValue(m)
+	if !ok || v.Kind != facts.VTable || v.T == nil {
+		return false, "the map searched is not a literal table: " + clip(m.Pretty())
+	}
+	count := map[string]int{}
+	labels := map[string]bool{}
+	for _, l := range spec.VersionLabels {
+		labels[l] = true
+	}
+	for _, en := range v.T.Entries {
+		s, isStr := stringOf(en.Val)
+		if !isStr {
+			return false, "an entry of the label table is not a string"
+		}
+		count[s]++
+		back, ok, _ := e.codeOf(verT, en.Key)
+		zero := en.Key.Kind == facts.VConst && en.Key.C != nil && constant.Sign(constant.ToInt(en.Key.C)) == 0
+		switch {
+		case labels[s] && (!ok || back != s):
+			return false, fmt.Sprintf("label %q is the value of %s, which prints as %q", s, en.Key, back)
+		case !labels[s] && !zero:
+			return false, fmt.Sprintf("the string %q, not a supported label, is the value of %s", s, en.Key)
+		}
+	}
+	for _, l := range spec.VersionLabels {
+		if count[l] != 1 {
+			return false, fmt.Sprintf("label %q occurs %d times in the label table", l, count[l])
+		}
+	}
+	return true, ""
 }
 
 // appliedLabelParser: call is a library function applied to the label part and otherwise to constants and literal
